@@ -27,6 +27,11 @@ KINDS = ["f", "i", "b", "s", "s", "u", "d", "t", "tm", "ts", "td", "o", "oi", "y
 def _plan(draw, max_len):
     kind = draw(st.sampled_from(KINDS))
     n = draw(st.one_of(st.sampled_from([0, 1, 2, 3]), st.integers(0, max_len)))
+    if max_len > 10 and kind == "i" and draw(st.integers(0, 9)) == 0:
+        # long vector of all-distinct integers (first occurrences at every index, incl. 128 and beyond)
+        n = draw(st.sampled_from([129, 130, 257]))
+        a, b = draw(st.sampled_from([1, 7, 37, 101])), draw(st.integers(-5, 5))
+        return {"kind": "i", "vals": [((i * a) % n) + b for i in range(n)]}
     if max_len > 10 and kind != "oi" and draw(st.integers(0, 19)) == 0:
         # long vectors (beyond NumPy's small-array sort paths), laid out from a few base values
         n = draw(st.sampled_from(gen.BIG_SIZES))
